@@ -64,6 +64,31 @@ def check(ctx):
                    f"{norm(rets[0].value) if rets[0].value is not None else None} instead of that element (and disagrees with its group-wise form)",
                    clause="first / last / nth return the element at that position when it exists")
     ctx.note(f"GRD-index: {n_idx} explicit bounds shortcut(s) examined")
+    # element-valued results (an element of x: x[index], np.amax(x), np.amin(x)) are NumPy scalars only for NumPy's own element
+    # types; the elements of string and object vectors are plain Python objects without .item().  Converting the result with
+    # .item() is therefore guarded (isinstance(..., np.generic) / hasattr(..., "item")) wherever the value may be an element.
+    ctx.rule("GRD-item", ".item() on a value that may be an element of a string / object vector is guarded")
+    n_item = 0
+    for fn_ in generic.module_functions(repo, "dataiter.aggregate"):
+        for f_, c in calls_in(fn_):
+            if not (isinstance(c.func, ast.Attribute) and c.func.attr == "item" and not c.args):
+                continue
+            recv = c.func.value
+            d_ = repo.dotted(f_, recv.func) if isinstance(recv, ast.Call) else None
+            element_valued = isinstance(recv, ast.Subscript) or d_ in ("numpy.amax", "numpy.amin", "numpy.max", "numpy.min", "numpy.nanmax",
+                                                                        "numpy.nanmin") or isinstance(recv, ast.Name)
+            if not element_valued:
+                continue
+            n_item += 1
+            rt = norm(recv)
+            guarded = any(k == "T" and (("isinstance(" in t and "np.generic" in t) or ("hasattr(" in t and "item" in t)) and rt in t
+                          for k, t in facts_at(f_, c))
+            ctx.ob("GRD-item", f_, f"{norm(c)[:60]}", c, guarded,
+                   "converted only when it is a NumPy scalar" if guarded else
+                   f"{norm(c)[:50]}: for a string (or object) vector the value is a plain Python object -- 'str' has no attribute 'item' -- so the "
+                   f"vector form raises AttributeError where the group-wise form returns the element",
+                   clause="both applied to a vector and used group-wise, the result equals the textbook statistic, for each dtype a helper accepts")
+    ctx.note(f"GRD-item: {n_item} .item() conversions of element-valued results examined")
     generic.sorted_unique_ties(ctx, [f for f in generic.module_functions(repo, "dataiter.aggregate") if f.name.startswith("mode")],
                                "mode breaks ties by first occurrence")
     generic.na_blind_paths(ctx, [f for f in generic.module_functions(repo, "dataiter.aggregate") if f.name == "handle_na"],
